@@ -53,20 +53,20 @@ PROPS = {
                 trusted=["SHA-256 treated as an arbitrary function H in theorems; 'never delivered' rests on the 48-bit MAC assumption"]),
     "C08": dict(lean=["Mav.Props.C08"], groups=[("C08", sizes(150, 4000))],
                 trusted=["forwarding chain = composition of the reader and writer models (Driver hopChain); Node.FixFrame model in Mav/Model/Writer.lean"]),
-    "C10": dict(lean=["Mav.Props.C10"], groups=[("C10", sizes(60, 3000))],
+    "C10": dict(confirm_group=True, lean=["Mav.Props.C10"], groups=[("C10", sizes(60, 3000))],
                 trusted=["Go channel/select/goroutine semantics as modelled by the labelled transition system Mav/Model/Node.lean (one step per rendezvous); scheduler fairness"],
                 partial=["event sequences are observed on real runs (custom in-memory transports, TCP) and judged by the executable spec Spec.evLegal; the transition-system theorems are about the model"]),
-    "C11": dict(lean=["Mav.Props.C11"], groups=[("C11", sizes(60, 3000))],
+    "C11": dict(confirm_group=True, lean=["Mav.Props.C11"], groups=[("C11", sizes(60, 3000))],
                 trusted=["Go channel/select/goroutine semantics as modelled by Mav/Model/Node.lean; in-memory transports of the harness record write calls faithfully"]),
-    "C12": dict(lean=["Mav.Props.C12"], groups=[("C12", sizes(40, 1200))],
+    "C12": dict(confirm_group=True, lean=["Mav.Props.C12"], groups=[("C12", sizes(40, 1200))],
                 crash_signatures=[("crash:pion-udp-waitgroup", r"sync: (WaitGroup is reused|WaitGroup misuse|negative WaitGroup).*pion/transport/v2/udp")],
                 trusted=["Go channel/select/goroutine semantics as modelled by Mav/Model/Node.lean; OS socket release observed by re-binding; goroutine census by runtime.Stack filtered to gomavlib / pion frames"],
                 partial=["termination of Close: proved in the model as progress (close_never_stuck: a closing node always has an enabled step that lowers the measure) plus a bound (close_bounded: at most mu(s) state-changing steps once the loop has seen terminate and the providers have returned); fairness of the Go scheduler / select towards the node loop and providers, and the return of blocked transport calls once the transport is closed, are assumptions; that Close returns within a bound, goroutine / port / connection release and the Close count of custom transports are observed on real runs"]),
-    "C13": dict(lean=["Mav.Props.C13"], groups=[("C13", sizes(30, 1500))],
+    "C13": dict(confirm_group=True, lean=["Mav.Props.C13"], groups=[("C13", sizes(30, 1500))],
                 trusted=["Go channel/select/goroutine semantics as modelled by Mav/Model/Node.lean"]),
     "C14": dict(lean=["Mav.Props.C14"], groups=[("C14", sizes(30, 400))], confirm=["lifecheck ", "tnc "],
                 crash_signatures=[("crash:pion-udp-waitgroup", r"sync: (WaitGroup is reused|WaitGroup misuse|negative WaitGroup).*pion/transport/v2/udp")],
-                trusted=["the environment of a client-type endpoint is a script of connection-attempt outcomes and channel deaths (Mav/Model/Provider.lean); time is observed in units of the reconnect period (200 ms, set through the hook) with a tolerance of 0.42 period",
+                trusted=["the environment of a client-type endpoint is a script of connection-attempt outcomes and channel deaths (Mav/Model/Provider.lean); time is observed in units of the reconnect period (300 ms, set through the hook) with a tolerance of 0.42 period",
                          "kernel TCP/UDP loopback behaviour (refused connections, RST on SO_LINGER 0, deadlines) as observed"],
                 partial=["idle expiry and deadlines: the theorems are about the read-loop and wrapper models; on real runs silent peers must be closed with a timeout cause and busy peers must stay open (server and client scenarios), and the deadlines handed to a recording net.Conn must be call time + timeout"]),
     "C15": dict(lean=["Mav.Props.C15"], groups=[("C15", sizes(30, 600))], race=True,
